@@ -73,12 +73,12 @@ def rule_ops(ctx, rep):
             n += 1
             _check_op(rep, f, op, bits, bits, name[2:])
     for f in m.defined():
-        mt = re.match(r"w_(add_return|sub_return|add|sub)__(\w\w)__(\w\w)$", f.name)
+        mt = re.match(r"w_(add_return|sub_return|add|sub|and|or|set|xchg|cmpxchg)__(\w\w)__(\w\w)$", f.name)
         if mt:
             rep.touch(f)
             n += 1
             _check_op(rep, f, mt.group(1), BITS[mt.group(2)], BITS[mt.group(3)], f.name[2:])
-    pat.require(n >= 96 + 20, "only %d witness functions" % n)
+    pat.require(n >= 96 + 20 + 40, "only %d witness functions" % n)
 
 
 def _check_op(rep, f, op, bits, vbits, tag):
